@@ -278,34 +278,45 @@ def level_scaling(facts, res, geo):
             lv = resolve(args[1])
             if lv.get("did") != lvl["did"]:
                 res.violation(R, tbf.rel(facts.path_of(mm)), mm["qname"], "level:%s" % op, c["l"][1], "%s is called with level `%s`, not the operator's level argument" % (callee, facts.ntext(args[1])))
-    # relative child centres follow the Morton child code
+    # relative child centres follow the Morton child code: the function is evaluated for each child code (symx, Dim = 3, the
+    # extension ratio symbolic) and the signs of the centre it returns are compared with the code's bits
     fn = [g for g in facts.functions if g["name"] == "setRelativeChildCenter" and not g.get("inst") and tbf.body(g) is not None]
     if not fn:
         raise AnalysisBroken("setRelativeChildCenter not found")
-    seen = 0
     for g in fn:
-        tabs = [v for v in walk(tbf.body(g)) if v.get("k") == "VarDecl" and "[3]" in v.get("t", "") and kids(v)]
-        if len(tabs) != 1:
-            raise AnalysisBroken("%s: table of relative child positions not found" % g["qname"])
-        evg = symx.SymEval(facts, g)
-        rows = evg.eval(kids(tabs[0])[0])
-        if not (isinstance(rows, tuple) and len(rows) == 8 and all(isinstance(r, tuple) and len(r) == 3 for r in rows)):
-            raise AnalysisBroken("%s: relative child positions are not an 8 x 3 table" % g["qname"])
-        seen += 1
-        bad = [(c, [int(x) for x in rows[c]]) for c in range(8) if [int(x) for x in rows[c]] != [1 if (c >> (2 - d)) & 1 else -1 for d in range(3)]]
+        if len(g["params"]) < 2:
+            raise AnalysisBroken("%s: (child index, centre) parameters expected" % g["qname"])
+        rows = []
+        for c in range(8):
+            evg = symx.SymEval(facts, g)
+            evg.consts["Dim"] = 3
+            evg.env[g["params"][0]["did"]] = sympy.Integer(c)
+            evg.env.pop(g["params"][1]["did"], None)
+            evg.arrays[g["params"][1]["did"]] = {}
+            if len(g["params"]) > 2:
+                evg.env[g["params"][2]["did"]] = sympy.Symbol("ratio", positive=True) / 3       # any ratio in (0, 1): 1 - ratio stays positive
+            evg.exec(tbf.body(g))
+            centre = symx.as_tuple(evg, ("array", g["params"][1]["did"]))
+            if not (isinstance(centre, tuple) and len(centre) == 3):
+                raise AnalysisBroken("%s: the centre written for child %d was not recovered (%s)" % (g["qname"], c, evg.notes[:1]))
+            rows.append(centre)
         n += 1
-        res.instance(R, "relative child centres", facts.loc(tabs[0]), "row c = signs of (child centre - parent centre): %s" % [[int(x) for x in r] for r in rows])
+        ratio = sympy.Symbol("ratio", positive=True)
+        signs = []
+        for c in range(8):
+            sg = []
+            for d in range(3):
+                e = sympy.simplify(rows[c][d].subs(ratio, sympy.Rational(3, 2))) if isinstance(rows[c][d], sympy.Basic) else None
+                sg.append(1 if (e is not None and e.is_positive) else -1 if (e is not None and e.is_negative) else 0)
+            signs.append(sg)
+        res.instance(R, "relative child centres", facts.loc(g), "child code c -> signs of (child centre - parent centre): %s" % signs)
+        bad = [(c, signs[c]) for c in range(8) if signs[c] != [1 if (c >> (2 - d)) & 1 else -1 for d in range(3)]]
         if bad:
-            res.violation(R, tbf.rel(facts.path_of(g)), g["qname"], "child-centres", tabs[0]["l"][1],
-                          "child code %d is tabulated at %s; the Morton child code puts dimension d in bit (2-d), set = upper half, i.e. %s" % (bad[0][0], bad[0][1], [1 if (bad[0][0] >> (2 - d)) & 1 else -1 for d in range(3)]))
-        # the row used is the one of the child index given
-        uses = [x for x in walk(tbf.body(g)) if x.get("k") == "ArraySubscriptExpr" and strip(kids(x)[0]).get("k") == "ArraySubscriptExpr" and strip(kids(strip(kids(x)[0]))[0]).get("did") == tabs[0]["did"]]
-        for u in uses:
-            row = strip(kids(strip(kids(u)[0]))[1])
-            col = strip(kids(u)[1])
-            tgt = u.get("_p")
-            if row.get("did") != g["params"][0]["did"]:
-                res.violation(R, tbf.rel(facts.path_of(g)), g["qname"], "child-row", u["l"][1], "the table is read at row `%s`, not at the child index" % facts.ntext(row))
+            res.violation(R, tbf.rel(facts.path_of(g)), g["qname"], "child-centres", g["l"][1],
+                          "child code %d gets a centre with signs %s; the Morton child code puts dimension d in bit (2-d), set = upper half, i.e. %s" % (bad[0][0], bad[0][1], [1 if (bad[0][0] >> (2 - d)) & 1 else -1 for d in range(3)]))
+        mags = set(sympy.simplify(sympy.Abs(rows[c][d])) for c in range(8) for d in range(3) if isinstance(rows[c][d], sympy.Basic))
+        if len(mags) != 1:
+            res.violation(R, tbf.rel(facts.path_of(g)), g["qname"], "child-centres-magnitude", g["l"][1], "the children are not placed symmetrically about the parent centre (offsets %s)" % sorted(str(m_) for m_ in mags))
     return n
 
 
